@@ -113,7 +113,8 @@ class Unknown:
         return f'Unknown({self.name})'
 
     def note(self, interp, st):
-        st.emit('unknown_state_used', name=self.name)
+        # depth: 0 = observed by the function under contract itself, >= 1 = inside a callee that was inlined for want of a contract
+        st.emit('unknown_state_used', name=self.name, depth=len(getattr(interp, 'fn_stack', []) or []))
         hook = getattr(self.owner, '_on_unknown', None)
         if hook is not None:
             hook(interp, st, self.name)
@@ -400,7 +401,8 @@ class Interp:
             yield b, False
 
     def oblige(self, st, name, goal, tag='top', meta=None, split=False):
-        lib = sorted({str(e.data.get('name')) for e in st.events if e.kind == 'unknown_state_used' and str(e.data.get('name', '')).startswith('module:')})[:8]
+        lib = sorted({str(e.data.get('name')) for e in st.events if e.kind == 'unknown_state_used' and str(e.data.get('name', '')).startswith('module:')
+                      and e.data.get('depth', 0) >= 1})[:8]
         if lib:
             meta = dict(meta or {}, library_unknowns_on_path=lib)
         if split and z3.is_and(goal) and goal.num_args() > 1:
@@ -595,6 +597,10 @@ class Interp:
                             pass
                         finally:
                             self._module_init_depth = depth
+                const = self._imported_repo_constant(rel, tree, node.id)
+                if const is not None:
+                    yield st, const[0]
+                    return
                 helper = self._imported_repo_helper(rel, tree, node.id)
                 if helper is not None:
                     # a plain function imported from a sibling module of the repository (e.g. a helper a change moved there): the REAL
@@ -613,6 +619,31 @@ class Interp:
                                 v = Obj('contextlib', suppress=_SUPPRESS)
                                 v._lenient = True
             yield st, v
+
+    @staticmethod
+    def _imported_repo_constant(rel, tree, name):
+        """`from .mod import NAME` where NAME is a module-level literal (int / str / bytes / bool / None) of a sibling module of the
+        repository: -> (value,) or None"""
+        import os
+        from . import source
+        for n in tree.body:
+            if not (isinstance(n, ast.ImportFrom) and n.level >= 1):
+                continue
+            for a in n.names:
+                if (a.asname or a.name) != name:
+                    continue
+                base = os.path.dirname(rel)
+                for _ in range(n.level - 1):
+                    base = os.path.dirname(base)
+                cand = os.path.join(base, *(n.module.split('.') if n.module else [])) + '.py'
+                try:
+                    v = ast.literal_eval(source.module_assign(cand, a.name))
+                except Exception:
+                    return None
+                if v is None or isinstance(v, (int, str, bytes, bool, float)):
+                    return (v,)
+                return None
+        return None
 
     @staticmethod
     def _imported_repo_helper(rel, tree, name):
